@@ -11,6 +11,10 @@ def hook_commits():
         return []
 
 CHECKS = {
+ "C04": dict(cat="exploration",
+   text="Generated SCXML element trees covering every element and attribute kind of the statement are rendered in ten lexical styles and parsed by the real reader; the canonical dump of each model must equal a model built by an independent reading of the tree (names and document positions, never ids) and the dump of the plain rendering.",
+   note="Trusted: c04.rs::expected (independent tree-to-model reading) and canon.rs. <log> without expr, <assign> with child text, <script src> and initial-attribute-vs-element (which legitimately changes the transition type) are not generated. Counts of internal content blocks are not compared.",
+   tech="differential / metamorphic runtime oracle on the real reader (independent model builder + lexical variants)", ref="DESIGN.md §5 C04"),
  "C20": dict(cat="exploration",
    text="The real rocket server on loopback is driven with raw HTTP form posts (names / fields over an alphabet that needs URL encoding, invalid session ids, missing event name, 8 concurrent clients) and with <send type=BasicHTTP> from real sessions to published locations; a checker over the receivers' probe marks decides status per request class, exactly-once per accepted request, name / data equality and textual parameter forms.",
    note="Trusted: the raw HTTP client in c20.rs (sends only what application/x-www-form-urlencoded defines), the probe marks. The port is fixed at 5555 by the implementation: the check serialises itself with a file lock; a busy port is reported as inconclusive, never as violation. Duplicate field names are not generated.",
@@ -89,7 +93,7 @@ CHECKS = {
    tech="differential runtime oracle (reference evaluator) + metamorphic variants + cache-equivalence monitor", ref="DESIGN.md §5 C10"),
 }
 
-NOT_APPLICABLE = []
+NOT_APPLICABLE = []  # every property is claimed
 
 def main():
     checks = []
